@@ -24,3 +24,4 @@ def run(ctx):
     H.r16_1_purity(ctx)
     H.r16_2_kind_first(ctx)
     H.r16_3_decisions(ctx)
+    H.r14_10_get_value_typestate(ctx, 'R16.4')
